@@ -64,7 +64,9 @@ def gen_case(rng, thorough):
     ops.append(('fl',))
     if rng.random() < 0.3:
         ops.append(('fl',))
-    return {'world': world, 'groups': groups, 'cap': cap, 'ops': ops}
+    # raw payloads are NOT multiples of the group size: the average must then carry exactly the rounding of the
+    # per-tensor allreduce, (1/n) * (sum over the group), not of any other order of scaling and summing
+    return {'world': world, 'groups': groups, 'cap': cap, 'ops': ops, 'raw': rng.random() < 0.35}
 
 
 def payload(tid, rank, shape, dt, sym, gsize):
@@ -103,7 +105,7 @@ def run_case(ctx, case, seed):
                 if rank not in groups[gi]:
                     per_op.append(None)
                     continue
-                t = payload(tid, rank, shape, dt, sym, len(groups[gi]))
+                t = payload(tid, rank, shape, dt, sym, 1 if case.get('raw') else len(groups[gi]))
                 r = tdc.allreduce_bucketed(t, average=avg, group=handles[gi], symmetric=sym)
                 if isinstance(r, torch.Tensor):
                     ret = 'same'
@@ -127,7 +129,7 @@ def run_case(ctx, case, seed):
 def check_case(ctx, case, seed, lines, pend):
     world, groups, ops = case['world'], case['groups'], case['ops']
     jcase = {'world': world, 'groups': [list(g) for g in groups], 'cap': case['cap'],
-             'ops': [list(o) for o in ops], 'schedule_seed': seed}
+             'ops': [list(o) for o in ops], 'schedule_seed': seed, 'raw': bool(case.get('raw'))}
     wd, res = run_case(ctx, case, seed)
     if wd.stalled or wd.exceptions or wd.errors:
         ctx.fail(f'run failed: stalled={wd.stalled} exceptions={dict(list(wd.exceptions.items())[:2])} '
@@ -149,8 +151,12 @@ def check_case(ctx, case, seed, lines, pend):
             if len(g) == 1:
                 want = payload(tid, rank, shape, dt, sym, 1)
             else:
-                tot = sum(payload(tid, r, shape, dt, sym, len(g)).to(torch.float64) for r in g)
-                want = (tot / len(g)) if avg else tot
+                raw = bool(case.get('raw'))
+                tot = sum(payload(tid, r, shape, dt, sym, 1 if raw else len(g)).to(torch.float64) for r in g)
+                if raw and avg:
+                    want = (1 / len(g)) * tot.to(DT[dt])    # TorchDistributedCommunicator.allreduce's own rounding
+                else:
+                    want = (tot / len(g)) if avg else tot
             if tuple(got.shape) != tuple(shape) or got.dtype != DT[dt]:
                 ctx.fail(f'tensor {tid}: shape/dtype {tuple(got.shape)}/{got.dtype} instead of {shape}/{DT[dt]}',
                          jcase, 'shape-dtype')
@@ -242,7 +248,7 @@ def search(ctx):
 def replay(ctx, payload):
     c = payload.get('case', {})
     if 'ops' in c:
-        case = {'world': c['world'], 'groups': [tuple(g) for g in c['groups']], 'cap': c['cap'],
+        case = {'world': c['world'], 'groups': [tuple(g) for g in c['groups']], 'cap': c['cap'], 'raw': c.get('raw', False),
                 'ops': [tuple(tuple(x) if isinstance(x, list) else x for x in o) for o in c['ops']]}
         check_case(ctx, case, c.get('schedule_seed', 0), [], [])
     for f in ctx.failures[:5]:
